@@ -253,8 +253,9 @@ class Check:
                 run_inconclusive = f"evidence does not validate: {str(e)[:200]}"
                 cov["verdict"] = "inconclusive"
         if self.replay is None:
-            evdir = HOME / "evidence"
-            evdir.mkdir(exist_ok=True)
+            # evidence describes /repo itself; runs against a scratch worktree (mutation testing) go aside
+            evdir = HOME / "evidence" if str(REPO) == "/repo" else HOME / ".work" / "evidence-scratch"
+            evdir.mkdir(parents=True, exist_ok=True)
             (evdir / f"{self.pid}.json").write_text(json.dumps(ev, indent=1))
         for ln in lines:
             print(ln)
